@@ -803,4 +803,37 @@ theorem thmOr (c : Corpus) (O : Oracle) (hO : AutoCaseAgrees O) : ∀ (q : Qy) (
       rfl
 end
 
+/-- **the tree built from the items of a grammar tree selects what the documentation says** -/
+theorem abstractTree_sem (c : Corpus) (O : Oracle) (hO : AutoCaseAgrees O) (g : Qy) (t : Q)
+    (hok : semOKQ g = true) (hl : (typesOfQ g).length ≤ 1) (h : abstractTree O g = .ok t) :
+    ∀ d, d < c.n → evalQ c t d = semQ O c none g d := by
+  unfold abstractTree at h
+  obtain ⟨its, hits, h2⟩ := bind_eq_ok' h
+  obtain ⟨qs, hqs, h3⟩ := bind_eq_ok' h2
+  obtain ⟨r, hr, h4⟩ := bind_eq_ok' h3
+  cases h4
+  have ih := thmOr c O hO g its hits hok
+  intro d hd
+  have := group_sem c O g its qs r ih.1 (typesOfQ_le g hok) hl ih.2 hqs hr none (Or.inr (Or.inr rfl)) d hd
+  rw [evalQ_strip]
+  simpa [evO_none, keff, modeOf_auto, semQ] using this
+
+theorem abstractParse_sem (c : Corpus) (he : EmptyOK c) (O : Oracle) (hO : AutoCaseAgrees O) (g : Qy) (q : Q)
+    (hok : semOKQ g = true) (hl : (typesOfQ g).length ≤ 1) (h : abstractParse O g = .ok q) :
+    ∀ d, d < c.n → evalQ c q d = semQ O c none g d := by
+  unfold abstractParse at h
+  obtain ⟨t, ht, hs⟩ := bind_eq_ok' h
+  -- t = stripCaseScopes q'
+  unfold abstractTree at ht
+  obtain ⟨its, hits, h2⟩ := bind_eq_ok' ht
+  obtain ⟨qs, hqs, h3⟩ := bind_eq_ok' h2
+  obtain ⟨r, hr, h4⟩ := bind_eq_ok' h3
+  cases h4
+  intro d hd
+  rw [evalQ_parse_tail c he r q hs d hd]
+  have ht' : abstractTree O g = .ok (stripCaseScopes r) := by
+    unfold abstractTree; rw [hits]; simp only [C07.bind_ok, hqs, hr]
+  have := abstractTree_sem c O hO g _ hok hl ht' d hd
+  rwa [evalQ_strip] at this
+
 end ZoektModel.C06
